@@ -51,6 +51,10 @@ def generate(rng, tier, index):
             ops.append(["peek", r, rng.randrange(0, 8)])
         else:
             ops.append(["perturb", rng.randrange(1, 1000)])
+    # appended after the fact (so that older scenarios keep their derivation): the sampler object is copied
+    # or pickled mid-history, and len() is asked at arbitrary points
+    for _ in range(rng.choice([0, 0, 1, 2])):
+        ops.insert(rng.randrange(len(ops) + 1), [rng.choice(["clone", "len", "stepx", "stepx"]), rng.randrange(W), rng.choice(["pickle", "deepcopy", "copy"])])
     sc["ops"] = ops
     return sc
 
@@ -155,6 +159,7 @@ def execute(sc):
                 res.violate("seed.not-kept", f"base_seed {sc['base_seed']} became {seed}")
                 return res
         held = {}  # rank -> [(epoch, iterator, expected length or None)]
+        lens = {}  # rank -> first len() seen
         ops = list(sc["ops"]) + [["drain", r, None] for r in range(world) for _ in range(4)]
         for op in ops:
             r = op[1] % world if op[0] != "perturb" else None
@@ -197,11 +202,36 @@ def execute(sc):
                             part.append(int(x))
                         table.setdefault((r, e, "prefix"), []).append(part)
                         res.bump("fault.iterator_abandoned")
+            elif op[0] == "stepx":
+                # a consumer that takes exactly len() indices and never asks for one more (zip(range(len(s)), s),
+                # islice): that is a complete pass over the epoch, so the next iteration must be the next epoch
+                import itertools
+
+                with ctx(r):
+                    s = samplers[r]
+                    e = s.epoch
+                    L = len(s)
+                    if L == 0:
+                        continue  # nothing is ever requested of the iterator: whether it claimed an epoch is not defined
+                    lst = [int(x) for x in itertools.islice(iter(s), L)]
+                    if len(lst) != L:
+                        res.violate("len.mismatch", f"rank {r} epoch {e}: len() = {L} but only {len(lst)} indices yielded (N={N}, W={world}, mode={mode})", mode=mode)
+                        return res
+                    if s.epoch != e + 1:
+                        res.violate("step.epoch-advance", f"a consumer took exactly len() = {L} indices of epoch {e} and the sampler stands at epoch {s.epoch}: the next iteration does not yield epoch {e + 1}", exact=True)
+                        return res
+                table.setdefault((r, e), []).append(lst)
+                res.steps += 1
+                res.bump("probe.exact_length_consumer")
+                res.log.add("stepx", r, e, lst)
             elif op[0] == "step":
                 with ctx(r):
                     s = samplers[r]
                     e = s.epoch
                     L = len(s)
+                    if lens.setdefault(r, L) != L:
+                        res.violate("len.mismatch", f"rank {r}: len() = {L} now, {lens[r]} earlier in the same history (N={N}, W={world}, mode={mode})", mode=mode)
+                        return res
                     lst = [int(x) for x in iter(s)]
                     if s.epoch != e + 1:
                         res.violate("step.epoch-advance", f"epoch went from {e} to {s.epoch} after one iteration")
@@ -221,6 +251,28 @@ def execute(sc):
             elif op[0] == "jump":
                 samplers[r].epoch = op[2]
                 res.bump("fault.epoch_jump")
+            elif op[0] == "clone":
+                import pickle
+
+                with ctx(r):
+                    e = samplers[r].epoch
+                    try:
+                        samplers[r] = {"pickle": lambda x: pickle.loads(pickle.dumps(x)), "deepcopy": copy.deepcopy, "copy": copy.copy}[op[2]](samplers[r])
+                    except Exception as err:  # noqa
+                        res.violate("clone.raised", f"{op[2]} of a sampler raised {type(err).__name__}: {err}", kind=sc["kind"])
+                        return res
+                    if samplers[r].epoch != e:
+                        res.violate("clone.epoch", f"{op[2]} of a sampler standing at epoch {e} stands at epoch {samplers[r].epoch}", kind=sc["kind"])
+                        return res
+                res.bump("fault.sampler_copied")
+            elif op[0] == "len":
+                with ctx(r):
+                    L = len(samplers[r])
+                want_len = lens.setdefault(r, L)
+                if L != want_len:
+                    res.violate("len.mismatch", f"rank {r}: len() = {L} now, {want_len} earlier in the same history (N={N}, W={world}, mode={mode})", mode=mode)
+                    return res
+                res.bump("probe.len_mid_history")
             elif op[0] == "peek":
                 with ctx(r):
                     e0 = samplers[r].epoch
